@@ -35,14 +35,14 @@ ASSUMPTIONS = [
 ]
 
 
-def mw(n, p, b, scorer, thr_scale, mdi=1, X=None, level=None):
+def mw(n, p, b, scorer, thr_scale, mdi=1, X=None, level=None, fit_rows=None):
     from skchange.change_detectors import MovingWindow
 
     kw = {} if level is None else {"level": level}
     det = MovingWindow(scorer, bandwidth=b, threshold_scale=thr_scale, min_detection_interval=mdi, **kw)
     if X is None:
         X = pd.DataFrame(np.zeros((n, p)))
-    det.fit(X)
+    det.fit(X if not fit_rows else X.iloc[:fit_rows])
     sc = np.asarray(det.transform_scores(X), dtype=float)
     y = det.predict(X)
     core.emit("MovingWindow", y, n=len(X), p=X.shape[1], band=b)
@@ -162,7 +162,8 @@ def check_data(acc, case, key):
         X = X.reshape(-1, 1)
     n, p = X.shape
     b, mdi, ts = case["b"], case.get("mdi", 1), case["thr_scale"]
-    cpts, sc, sc2, thr = mw(n, p, b, make_score(case["score"]), ts, mdi, X=pd.DataFrame(X), level=case.get("level"))
+    fr = case.get("fit_rows")
+    cpts, sc, sc2, thr = mw(n, p, b, make_score(case["score"]), ts, mdi, X=pd.DataFrame(X), level=case.get("level"), fit_rows=fr)
     ref = make_score("L2" if case["score"] == "L2cost" else case["score"]).fit(X)
     pos = list(range(b, n - b + 1))
     want = np.zeros(n)
@@ -173,6 +174,11 @@ def check_data(acc, case, key):
                           f"score at t={t} is {sc[t]!r}; change score of X[{t-b}:{t}] vs X[{t}:{t+b}] is {want[t]!r}", key)
             return
     if not check_detection(acc, case, key, list(sc), cpts, thr, mdi):
+        return
+    if fr:
+        if cpts:
+            acc.nt()
+        acc.outcome(f"K={len(cpts)}")
         return
     # time reversal
     Xr = X[::-1].copy()
@@ -277,6 +283,11 @@ def data_cases(tier, seed):
             x = [list(flat[2 * i:2 * i + 2]) for i in range(n)]
             for b in (1, 2):
                 yield {"fam": "data", "x": x, "score": "CUSUM", "b": b, "thr_scale": 0.1}
+    # fitted on a shorter prefix, predicting the full series
+    for n in (7, 8) if tier == "quick" else (7, 8, 9, 10):
+        for xs in itertools.product((0, 3), repeat=n):
+            for k, ts in ((4, 0.2), (n - 2, None)):
+                yield {"fam": "data", "x": list(xs), "score": "CUSUM", "b": 2, "thr_scale": ts, "level": 0.3 if ts is None else None, "fit_rows": k}
     # long windows so that min_detection_interval > 1 is exercised on data
     n = 12 if tier == "quick" else 14
     for xs in itertools.product((0, 4), repeat=n):
